@@ -44,7 +44,9 @@ type machSpec struct {
 	Fail  int    // extra unconnected processors whose every step FAILS (`addf16` at a register size != 16)
 	Dead  string // "" | "empty" | "noreg": one spare unconnected processor that cannot be initialised
 	// (empty program / no registers: procbuilder.VM.Init refuses it, the simulator treats it as halted)
-	DeadAt int // its processor index (0..P)
+	DeadAt int    // its processor index (0..P)
+	Cmd    string // "" | "list" | "exec": the chain cores' instruction sets LIST the command-channel opcodes
+	// (r2v k2r t2r: they talk to the emulation drivers through VM.cmdChan) / core 0 also EXECUTES `r2v r0 3`
 }
 
 func (m machSpec) String() string {
@@ -58,6 +60,9 @@ func (m machSpec) String() string {
 	if m.Dead != "" {
 		s += fmt.Sprintf(":%s%d", m.Dead, m.DeadAt)
 	}
+	if m.Cmd != "" {
+		s += ":cmd" + m.Cmd
+	}
 	return s
 }
 
@@ -67,6 +72,8 @@ func parseMach(s string) (machSpec, error) {
 	for len(f) > 4 {
 		x := f[len(f)-1]
 		switch {
+		case x == "cmdlist" || x == "cmdexec":
+			m.Cmd = x[3:]
 		case strings.HasPrefix(x, "fail"):
 			fmt.Sscanf(x, "fail%d", &m.Fail)
 		case strings.HasPrefix(x, "empty"):
@@ -166,6 +173,13 @@ func (m machSpec) build() (*bondmachine.Bondmachine, error) {
 		d.Arch.R, d.Arch.N, d.Arch.M, d.Arch.L, d.Arch.O = 2, 1, 1, 2, 5
 		d.Arch.Op = opsByName("i2rw", "inc", "r2owa")
 		prog := "i2rw r0 i0\n" + strings.Repeat("inc r0\n", m.Incs[i]) + "r2owa r0 o0\n"
+		if m.Cmd != "" {
+			d.Arch.Op = opsByName("i2rw", "inc", "r2owa", "r2v", "k2r", "t2r")
+			if m.Cmd == "exec" && i == 0 {
+				// one command to the (absent) video driver before the result is handed on
+				prog = "i2rw r0 i0\n" + strings.Repeat("inc r0\n", m.Incs[i]) + "r2v r0 3\nr2owa r0 o0\n"
+			}
+		}
 		p, err := d.Arch.Assembler([]byte(prog))
 		if err != nil {
 			return nil, err
@@ -680,6 +694,14 @@ func genFailMach(rng *common.Rng, maxP int) machSpec {
 	return m
 }
 
+// genCmdMach: 8-bit chain whose cores list (and, for "exec", whose first core executes) command-channel opcodes
+func genCmdMach(rng *common.Rng, maxP int, kind string) machSpec {
+	m := genMach(rng, maxP)
+	m.Rsize = 8
+	m.Cmd = kind
+	return m
+}
+
 // genDeadMach: a chain plus one spare processor that cannot be initialised, at a random index
 func genDeadMach(rng *common.Rng, maxP int) machSpec {
 	m := genMach(rng, maxP)
@@ -727,6 +749,14 @@ func runAll(tier string) {
 		next(batch{Mode: "seqdyn", N: 10, M: genMach(rng, 3), DT: dts[rng.Intn(len(dts))]})
 		next(batch{Mode: "seqdyn", N: 100, M: genMach(rng, 2), DT: dts[rng.Intn(len(dts))]})
 		next(batch{Mode: "pardyn", N: 20, K: 2 + rng.Intn(4), M: genMach(rng, 3), DT: dts[rng.Intn(2)]})
+		// machines that list / execute the command-channel opcodes (emulation drivers absent)
+		for _, ck := range []string{"list", "exec"} {
+			next(batch{Mode: "seq", N: 10, M: genCmdMach(rng, 3, ck)})
+			next(batch{Mode: "par", N: 10, K: 2 + rng.Intn(3), M: genCmdMach(rng, 2, ck)})
+			next(batch{Mode: "fit", N: 4, M: genCmdMach(rng, 2, ck)})
+		}
+		next(batch{Mode: "raw", N: 3, M: genCmdMach(rng, 2, "exec")})
+		next(batch{Mode: "seqerr", N: 2, M: genCmdMach(rng, 2, "exec")})
 		// delay tables: normal, without entries, without weight, for an opcode the machine does not have
 		dks := []string{"normal", "empty", "zero", "unknown", "mixed"}
 		for _, dk := range dks {
